@@ -278,7 +278,7 @@ def r10_2(ctx: Ctx, rule="R10.2"):
             ok1 = norm(sts[0].value) == "len(%s) - 1" % lst and same_guard and apps[0].lineno < sts[0].lineno \
                 and norm(apps[0].args[0]) == "%s.position" % atom
             g = guards_of(sts[0], pm)
-            ok1 = ok1 and len(g) == 1 and "element" in norm(g[0][0]) and "'H'" in norm(g[0][0])
+            ok1 = ok1 and len(g) == 1 and g[0][1] and norm(g[0][0]) in ("%s.element != 'H'" % atom, "'H' != %s.element" % atom)
     ctx.ob(rule, rh, en[0] if en else "index map", ok1,
            "the map old index -> new index is built in one pass over the molecule it filters: every kept atom's "
            "position is appended and its new index is the position just appended", node=en[0] if en else rh.node)
